@@ -797,7 +797,8 @@ def patched_range(r, forced=None):
             return v
         PT._random_number = d.random_number
         PB.urandom = lambda n: r.randbytes(n)
-        PA.urandom = lambda n: r.randbytes(n)
+        d.alg_forced = []          # values the next _safe_rndint draws of algorithm.py shall see (as urandom bytes)
+        PA.urandom = lambda n: d.alg_forced.pop(0).to_bytes(n, "big") if d.alg_forced else r.randbytes(n)
         PB.secure_randint = sec
         try:
             yield d
@@ -1009,6 +1010,32 @@ def stage_range(ctx, have_model):
                 ctx.count(("range-in", a, b, v, tuple(d.log[:4])))
                 if acc_score != 1.0 or rej_score != 0.0:
                     ctx.violation("range/inside-rejected", "value %d in [%d, %d]: certainty %r (m2 = %d)" % (v, a, b, acc_score, priv.m2), case)
+                # the verifier's random source forced to the boundaries of the domain it accepts (_safe_rndint keeps a draw
+                # unless it is < LARGE_INTEGER; a draw is key_size bits reduced modulo p - 1): every such challenge must be
+                # answered honestly and the in-range value accepted
+                if v in (a, b) or with_wrong:
+                    from ipv8.attestation.wallet.pengbaorange import algorithm as PA_
+                    L = PA_.LARGE_INTEGER
+                    top = min((1 << (8 * (ks // 8))) - 1, pk.g.mod - 2)
+                    ordinary = lambda: r.randrange(L + 2, top)
+                    for bs, bt in [(L, None), (None, L), (L, L), (L + 1, None), (None, L + 1), (L + 1, L + 1), (top, None), (None, top),
+                                   (top, top), (L, top), (L - 1 + 1, L + 1)]:
+                        s_f, t_f = (bs if bs is not None else ordinary()), (bt if bt is not None else ordinary())
+                        d.alg_forced = [s_f, t_f]
+                        chs = alg.create_challenges(att_v.PK, att_v)
+                        got = tuple(unpack_pair(chs[0])[0:2])
+                        aggb = alg.create_certainty_aggregate(att_v)
+                        for ch in chs:
+                            alg.process_challenge_response(aggb, ch, alg.create_challenge_response(sk, att_p, ch))
+                        sc = alg.certainty(b"\x01", aggb)
+                        ctx.count(("range-boundary-challenge", a, b, v, s_f, t_f))
+                        stats["boundary_challenges"] = stats.get("boundary_challenges", 0) + 1
+                        if got != (s_f, t_f):
+                            ctx.broke("harness: forcing the verifier's draws did not take effect", "%r instead of %r" % (got, (s_f, t_f)))
+                        elif sc != 1.0:
+                            ctx.violation("range/inside-rejected-at-challenge-boundary",
+                                          "value %d in [%d, %d], challenge (s, t) = (%d, %d) (LARGE_INTEGER = %d): certainty %r"
+                                          % (v, a, b, s_f, t_f, L, sc), dict(case, kind="range-challenge", s=s_f, t=t_f))
                 # the same proof presented for ranges that do not contain the value
                 for (a2, b2) in [(v + 1, max(b, v + 1) + 3), (max(0, a - 3) if v > 0 else 0, v - 1), (a + 1, b + 1), (a - 1, b - 1)]:
                     if not with_wrong or a2 <= v <= b2 or b2 < a2 or (a2, b2) == (a, b):
@@ -1669,6 +1696,24 @@ def rerun_case(ctx, case):
     if k == "small":
         small_bitspace_run(ctx, r, case["bitspace"], [])
         return "all orders and subsets, bit space %d" % case["bitspace"]
+    if k == "range-challenge":
+        from ipv8.attestation.wallet.pengbaorange.attestation import create_attest_pair
+        from ipv8.attestation.wallet.pengbaorange.structs import PengBaoAttestation
+        a, b, v, ks = case["a"], case["b"], case["v"], case["key_size"]
+        alg = range_alg(a, b, ks)
+        sk = guarded(alg.generate_secret_key)
+        with patched_range(r) as d:
+            att = create_attest_pair(sk.public_key(), v, a, b, ks)
+            pub = PengBaoAttestation.unserialize(att.serialize(), "f")
+            d.alg_forced = [case["s"], case["t"]]
+            agg = alg.create_certainty_aggregate(pub)
+            for ch in alg.create_challenges(pub.PK, pub):
+                alg.process_challenge_response(agg, ch, alg.create_challenge_response(sk, att, ch))
+            sc = alg.certainty(b"\x01", agg)
+        if sc != 1.0:
+            ctx.violation("range/inside-rejected-at-challenge-boundary", "value %d in [%d, %d], challenge (%d, %d): certainty %r"
+                          % (v, a, b, case["s"], case["t"], sc), case)
+        return "range proof for %d in [%d, %d], challenge (%d, %d): certainty %r" % (v, a, b, case["s"], case["t"], sc)
     if k == "range-cheat-mod-n":
         from ipv8.attestation.wallet.pengbaorange.structs import PengBaoAttestation
         from ipv8.attestation.wallet.primitives.structs import unpack_pair
